@@ -35,6 +35,7 @@ type c11Case struct {
 	Listener    string      `json:"listener"` // plain | tls
 	Cap         int         `json:"cap"`
 	Clients     []c11Client `json:"clients"`
+	DrainS      int         `json:"drain_s"`     // shutdown timeout in seconds: 30 is the shipped default, 0 means "no limit"
 	ShutdownMs  int         `json:"shutdown_ms"` // earliest time of the shutdown request; the scheduler may fire it at any later step
 	WOne, WRand int
 }
@@ -62,6 +63,7 @@ func genC11(t *tape.Tape, tier string) any {
 		c.Clients = append(c.Clients, cl)
 	}
 	c.ShutdownMs = []int{0, 10, 500, 2000}[t.Pick(3, 2, 2, 1)]
+	c.DrainS = []int{30, 0, 90}[t.Pick(5, 2, 1)]
 	c.WOne = t.Pick(6, 2, 1)
 	c.WRand = t.Pick(2, 4, 2) * 2
 	return c
@@ -99,7 +101,7 @@ func runC11(env *core.Env, ci any) {
 	}
 	env.Sched.Knobs.WOne, env.Sched.Knobs.WRand = c.WOne, c.WRand
 	env.Sched.Knobs.MaxSteps = 400000
-	env.Sched.Knobs.Horizon = 3 * time.Hour
+	env.Sched.Knobs.Horizon = 6 * time.Hour
 	sut.Install(env)
 	env.AcctInexact = true // (C13 mode) clients here abandon exchanges on purpose: only gauges and inequalities are judged
 	ca := simtls.NewCA("verifsim CA")
@@ -165,6 +167,8 @@ func runC11(env *core.Env, ci any) {
 		}
 	})
 	s, err := sut.Start(env, sut.Options{
+		ShutdownTimeout: time.Duration(c.DrainS) * time.Second,
+		ShutdownNoLimit: c.DrainS == 0,
 		Config: func(cfg *forwarder.HTTPProxyConfig) {
 			cfg.ProxyLocalhost = forwarder.AllowProxyLocalhost
 			if c.Listener == "tls" {
@@ -369,8 +373,8 @@ func runC11(env *core.Env, ci any) {
 		if !errors.Is(s.RunErr, context.Canceled) {
 			env.Fail("shutdown-return-value", feature, "Run returned %v, want the context's error", s.RunErr)
 		}
-		if d := returnedAt - shutdownAt; d > 31*time.Second {
-			env.Fail("shutdown-too-slow", feature, "Run returned %v after the shutdown request; the drain limit is 30 s", d)
+		if d := returnedAt - shutdownAt; c.DrainS > 0 && d > time.Duration(c.DrainS+1)*time.Second {
+			env.Fail("shutdown-too-slow", feature, "Run returned %v after the shutdown request; the drain limit is %d s", d, c.DrainS)
 		}
 		if len(openAtReturn) > 0 {
 			env.Fail("shutdown-socket-leak", feature, "when Run returned (at %v, %v after the request) these proxy-side sockets were still open: %v", returnedAt, returnedAt-shutdownAt, openAtReturn)
@@ -403,7 +407,7 @@ func runC11(env *core.Env, ci any) {
 				if r.dialErr != nil {
 					continue
 				}
-				if logged != nil && logged.seq < shutdownSeq && time.Duration(cl.DelayMs)*time.Millisecond <= 20*time.Second && r.kind != "drip-reader" {
+				if logged != nil && logged.seq < shutdownSeq && (c.DrainS == 0 || time.Duration(cl.DelayMs)*time.Millisecond <= time.Duration(c.DrainS-10)*time.Second) && r.kind != "drip-reader" {
 					// (a) reached the origin before shutdown and the origin is fast enough: must complete, then be closed
 					if !r.respDone || r.status != 200 || r.bodyLen != cl.Body {
 						env.Fail("shutdown-inflight-cut", f, "request %s reached its origin at %v, before the shutdown request (%v); the origin answers after %v with %d bytes, but the client got respDone=%v status=%d body=%d err=%v", tok, logged.at, shutdownAt, time.Duration(cl.DelayMs)*time.Millisecond, cl.Body, r.respDone, r.status, r.bodyLen, r.respErr)
@@ -427,14 +431,21 @@ func runC11(env *core.Env, ci any) {
 				}
 				env.Probe("late_" + r.kind)
 			case "idle", "served-then-idle", "tunnel", "mid-head":
+				if c.DrainS == 0 && r.kind == "tunnel" {
+					// without a drain limit the proxy rightly waits for the tunnel, which ends when the scripted client gives up
+					break
+				}
 				if r.dialErr == nil && r.note == "" && r.closedAt < 0 {
 					env.Fail("shutdown-conn-left-open", f, "connection of kind %s was still open 2.5 h after Run returned", r.kind)
 				}
 			}
 		}
 		env.Probe("shutdown_completed")
-		if returnedAt-shutdownAt >= 30*time.Second {
+		if c.DrainS > 0 && returnedAt-shutdownAt >= time.Duration(c.DrainS)*time.Second {
 			env.Probe("drain_limit_hit")
+		}
+		if c.DrainS == 0 {
+			env.Probe("shutdown_without_limit")
 		}
 	}
 	env.NonTrivial = !env.Failed() && s.Stopped()
@@ -503,7 +514,7 @@ func init() {
 		Shape: func(ci any) string {
 			c := ci.(*c11Case)
 			var sb strings.Builder
-			fmt.Fprintf(&sb, "%s/cap%d/sd%d", c.Listener, c.Cap, c.ShutdownMs)
+			fmt.Fprintf(&sb, "%s/cap%d/sd%d/drain%d", c.Listener, c.Cap, c.ShutdownMs, c.DrainS)
 			for _, cl := range c.Clients {
 				fmt.Fprintf(&sb, "/%s-%d-%d", cl.Kind, cl.DelayMs/1000, cl.StartMs)
 			}
@@ -512,6 +523,6 @@ func init() {
 		Real:        append([]string{"HTTPProxy.Run / run loop, martian.Proxy.Shutdown / Close / Serve / handleLoop, closing() checks, listener and dialer metrics"}, realForwarder...),
 		Stub:        stubCommon,
 		Rule:        "1-6 client connections in drawn phases when the shutdown request fires (idle, served then idle, request at an origin with latency 0-120 s, head half sent, tunnel copying, response backed up against a slow reader, client vanishing, request sent on an idle connection after shutdown began, connection opened after shutdown began) on a plain or TLS listener with large or tiny link capacity; the shutdown request is a scheduler event that may fire at any step after its earliest time. History oracle over (origin log, shutdown event, Run return) with global sequence numbers + socket ledger + listener_cx_active. Non-trivial = Run returned and all clients were judged.",
-		Assumptions: []string{"an exchange is 'in flight' for rule (a) when the scripted origin logged its request before the shutdown event and answers within 20 s (the drain limit is 30 s)"},
+		Assumptions: []string{"an exchange is 'in flight' for rule (a) when the scripted origin logged its request before the shutdown event and answers at least 10 s before the drain limit (30 s shipped, 90 s, or none) expires"},
 	})
 }
